@@ -80,7 +80,7 @@ func (t *Trimmer) markService(svc *parser.Service, ast *parser.Thrift, filename 
 		t.traceExtendMethod([]*parser.Service{svc}, svc, ast, filename)
 	}
 
-	if svc.Extends != "" {
+	if svc.Extends != "" && !t.extendsDropped(svc) {
 		if _, ok := currentMap[svc]; ok {
 			// handle extension
 			if svc.Reference != nil {
@@ -95,6 +95,17 @@ func (t *Trimmer) markService(svc *parser.Service, ast *parser.Thrift, filename 
 			}
 		}
 	}
+}
+
+// extendsDropped reports whether the `extends` of svc is going to be removed by cleanServiceExtends
+// (-m selected nothing from its base services): the base and its include are then not needed
+func (t *Trimmer) extendsDropped(svc *parser.Service) bool {
+	for _, s := range t.extServices {
+		if s == svc {
+			return true
+		}
+	}
+	return false
 }
 
 func (t *Trimmer) markFunction(function *parser.Function, ast *parser.Thrift, filename string) {
@@ -302,7 +313,7 @@ func (t *Trimmer) traceExtendMethod(fathers []*parser.Service, svc *parser.Servi
 	}
 	if ret {
 		currentMap[svc] = struct{}{}
-		if svc.Reference != nil {
+		if svc.Reference != nil && !t.extendsDropped(svc) {
 			t.markInclude(ast.Includes[svc.Reference.Index], filename)
 		}
 	}
